@@ -21,6 +21,8 @@
 #include <malloc.h>
 #include <turbojpeg.h>
 #include "jconfig.h"
+#include <jpeglib.h>
+#include <jerror.h>
 
 #define PG 4096
 #define CANARY 0xC3
@@ -455,6 +457,89 @@ static void run_api_case(const char *line)
   tj3Free(k->jpeg); tj3Free(k->out[0]); tj3Free(k->out[1]);
 }
 
+/* ------------------------------------------------------------ libjpeg API: rows per read call */
+/* jpeg_read_scanlines(cinfo, rows, max_lines) in a loop over the whole image.  rows[0..max_lines-1]
+   are the rows of a buffer flush against a guard page; rows[max_lines..max_lines+XR-1] point to
+   canary rows that no call may touch (only max_lines rows were handed over). */
+#define XR 4
+static void rs_error_exit(j_common_ptr cinfo) { (void)cinfo; siglongjmp(jb, 2); }
+static void rs_output_message(j_common_ptr cinfo) { (void)cinfo; }
+
+static void run_rs_case(const char *line)
+{
+  kase K, *k = &K;
+  memset(k, 0, sizeof *k);
+  strcpy(k->kind, "pk"); strcpy(k->api, "dec");
+  k->bits = 8; k->w = geti(line, "w", 1); k->h = geti(line, "h", 1); k->ss = geti(line, "ss", 0);
+  k->pf = geti(line, "pf", 0); k->num = geti(line, "num", 1); k->den = geti(line, "den", 1);
+  k->side = geti(line, "side", 1); k->fast = geti(line, "fast", 0);
+  int maxl = geti(line, "max", 1);
+  if (k->pf < 0 || k->pf >= TJ_NUMPF || k->pf == TJPF_CMYK || k->ss < 0 || k->ss >= TJ_NUMSAMP || k->w < 1 || k->h < 1 ||
+      k->den < 1 || maxl < 1 || maxl > 64) { printf("?\n"); return; }
+  static const J_COLOR_SPACE cs[TJ_NUMPF] = { JCS_EXT_RGB, JCS_EXT_BGR, JCS_EXT_RGBX, JCS_EXT_BGRX, JCS_EXT_XBGR, JCS_EXT_XRGB,
+    JCS_GRAYSCALE, JCS_EXT_RGBA, JCS_EXT_BGRA, JCS_EXT_ABGR, JCS_EXT_ARGB, JCS_CMYK };
+  if (make_jpeg(k)) { printf("err %s\n", k->err); return; }
+  struct jpeg_decompress_struct cinfo;
+  struct jpeg_error_mgr jerr;
+  volatile int created = 0;
+  gbuf g; memset(&g, 0, sizeof g);
+  uint8_t *volatile extra = NULL;
+  JSAMPROW rows[64 + XR];
+  volatile long total = 0, calls = 0, over_at = -1, over_ret = 0, over_row = -1;
+  volatile int canary_bad = 0; volatile long coff = 0;
+  int rc;
+  in_call = 1;
+  rc = sigsetjmp(jb, 1);
+  if (rc == 0) {
+    cinfo.err = jpeg_std_error(&jerr);
+    jerr.error_exit = rs_error_exit; jerr.output_message = rs_output_message;
+    jpeg_create_decompress(&cinfo); created = 1;
+    jpeg_mem_src(&cinfo, k->jpeg, (unsigned long)k->jpegSize);
+    jpeg_read_header(&cinfo, TRUE);
+    cinfo.scale_num = k->num; cinfo.scale_denom = k->den;
+    cinfo.do_fancy_upsampling = !k->fast;
+    cinfo.out_color_space = cs[k->pf];
+    jpeg_start_decompress(&cinfo);
+    size_t rowbytes = (size_t)cinfo.output_width * cinfo.output_components;
+    if (galloc(&g, rowbytes * maxl, k->side)) siglongjmp(jb, 2);
+    extra = malloc(rowbytes * XR);
+    for (int i = 0; i < maxl; i++) rows[i] = g.buf + (size_t)i * rowbytes;
+    for (int i = 0; i < XR; i++) rows[maxl + i] = extra + (size_t)i * rowbytes;
+    while (cinfo.output_scanline < cinfo.output_height && over_at < 0) {
+      JDIMENSION at = cinfo.output_scanline, n;
+      memset(g.buf, FILL[0], rowbytes * maxl);
+      memset(extra, CANARY, rowbytes * XR);
+      gslack_fill(&g);
+      n = jpeg_read_scanlines(&cinfo, rows, maxl);
+      calls++; total += n;
+      long o;
+      if (!canary_bad && gslack_bad(&g, &o)) { canary_bad = 1; coff = o; }
+      for (size_t j = 0; j < rowbytes * XR; j++)
+        if (extra[j] != CANARY) { over_at = at; over_ret = n; over_row = maxl + (long)(j / rowbytes); break; }
+      if ((int)n > maxl && over_at < 0) { over_at = at; over_ret = n; over_row = -1; }
+      if (n == 0) break;
+    }
+    if (over_at < 0) jpeg_finish_decompress(&cinfo);
+  }
+  in_call = 0;
+  if (rc == 1) {
+    long off = 0; int fb = -1;
+    if (g.map && fault_addr >= (uintptr_t)g.map && fault_addr < (uintptr_t)g.map + g.maplen) { fb = 0; off = (long)(fault_addr - (uintptr_t)g.buf); }
+    printf("segv buf=%d off=%ld pass=0\n", fb, off);
+  } else if (rc == 2) printf("err jpeg\n");
+  else if (over_at >= 0)
+    printf("over at=%ld max=%d ret=%ld row=%ld\n", (long)over_at, maxl, (long)over_ret, (long)over_row);
+  else {
+    printf("ok total=%ld ; canary=", (long)total);
+    if (canary_bad) printf("bad:b0@%ld", (long)coff); else printf("ok");
+    printf(" det=same calls=%ld\n", (long)calls);
+  }
+  if (created && rc != 1) jpeg_destroy_decompress(&cinfo);
+  free((void *)extra);
+  gfree_all();
+  tj3Free(k->jpeg);
+}
+
 /* ------------------------------------------------------------ SIMD kernels directly */
 #ifdef WITH_SIMD
 typedef unsigned char **SARR;
@@ -566,6 +651,7 @@ int main(void)
   while (fgets(line, sizeof line, stdin)) {
     if (!strncmp(line, "pk ", 3) || !strncmp(line, "yuv ", 4)) run_api_case(line);
     else if (!strncmp(line, "kern ", 5)) run_kern_case(line);
+    else if (!strncmp(line, "rs ", 3)) run_rs_case(line);
     else if (!strncmp(line, "simd", 4)) {
 #ifdef WITH_SIMD
       printf("simd=1\n");
